@@ -6,6 +6,49 @@ import RsMatterVerif.Props.C19
 namespace C01
 open Cert Case
 
+/-- the successful branch of `try_handle_sigma1_resume` written out on its own … -/
+def respResumeSucc (fabrics : List Fabric) (cache : List ResRec) (m : Msg) (newRid sid : Term) :
+    Option RespResumeCtx :=
+  match m with
+  | .sigma1 iRnd iSid _ _ (some (rid, mic1)) =>
+    match cache.find? (fun r => r.rid == rid) with
+    | .none => .none
+    | some r =>
+      if mic1 ≠ Term.mic (resumeKey r.secret iRnd r.rid infoS1RK) nonceR1 then .none
+      else
+        match fabrics.find? (fun f => f.idx == r.fabIdx) with
+        | .none => .none
+        | some f =>
+          let mic2 := Term.mic (resumeKey r.secret iRnd newRid infoS2RK) nonceR2
+          let keys := resumeSessionKeys r.secret iRnd r.rid
+          some { record := r,
+                 session := { fabIdx := r.fabIdx, localNode := f.nodeId, peerNode := r.peerNode,
+                              cats := r.cats, i2r := .part 0 keys, r2i := .part 1 keys,
+                              localSid := sid, peerSid := iSid, sharedSecret := r.secret },
+                 newRid := newRid, s2r := .sigma2Resume newRid mic2 sid }
+  | _ => .none
+
+/-- … is what the model's `respResume` (projection of the three-outcome `respResumeStep`) computes -/
+theorem respResume_eq (fabrics : List Fabric) (cache : List ResRec) (m : Msg) (newRid sid : Term) :
+    respResume fabrics cache m newRid sid = respResumeSucc fabrics cache m newRid sid := by
+  unfold respResume respResumeStep respResumeSucc
+  cases m with
+  | sigma1 r s d e res =>
+    cases res with
+    | none => rfl
+    | some p =>
+      obtain ⟨rid, mic1⟩ := p
+      simp only
+      cases cache.find? (fun r => r.rid == rid) with
+      | none => rfl
+      | some rec =>
+        simp only
+        by_cases hm : mic1 = Term.mic (resumeKey rec.secret r rec.rid infoS1RK) nonceR1
+        · simp only [hm, ne_eq, not_true_eq_false, ↓reduceIte]
+          cases fabrics.find? (fun f => f.idx == rec.fabIdx) <;> rfl
+        · simp only [hm, ne_eq, not_false_eq_true, ↓reduceIte]
+  | _ => rfl
+
 theorem responder_session_implies_auth (t : Time) (ctx : RespCtx) (m : Msg) (s : Session) (r : ResRec)
     (h : respSigma3 t ctx m = some (s, r)) :
     ∃ noc icac sig,
@@ -98,7 +141,8 @@ theorem responder_resume_implies_mic (fabrics : List Fabric) (cache : List ResRe
       s.i2r = .part 0 (resumeSessionKeys rec.secret iRnd rec.rid) ∧
       s.r2i = .part 1 (resumeSessionKeys rec.secret iRnd rec.rid) ∧
       r' = { rec with rid := newRid } := by
-  unfold respResume at h1
+  rw [respResume_eq] at h1
+  unfold respResumeSucc at h1
   split at h1
   · rename_i iRnd iSid dest iEph rid mic1
     split at h1
@@ -372,7 +416,8 @@ theorem respResume_some (fabrics : List Fabric) (cache : List ResRec) (m : Msg) 
       ctx.s2r = .sigma2Resume newRid (Term.mic (resumeKey rec.secret iRnd newRid infoS2RK) nonceR2) sid ∧
       ctx.session.i2r = .part 0 (resumeSessionKeys rec.secret iRnd rec.rid) ∧
       ctx.session.r2i = .part 1 (resumeSessionKeys rec.secret iRnd rec.rid) := by
-  unfold respResume at h
+  rw [respResume_eq] at h
+  unfold respResumeSucc at h
   split at h
   · rename_i iRnd iSid dest iEph rid mic1
     split at h
@@ -391,6 +436,44 @@ theorem respResume_some (fabrics : List Fabric) (cache : List ResRec) (m : Msg) 
           refine ⟨rec, List.mem_of_find?_eq_some hrec, iRnd, iSid, dest, iEph, ?_, rfl, rfl, rfl, rfl, rfl⟩
           rw [hrid, hmic, hrid]
   · cases h
+
+theorem respResumeStep_sent_iff (fabrics : List Fabric) (cache : List ResRec) (m : Msg) (newRid sid : Term)
+    (cx : RespResumeCtx) :
+    respResumeStep fabrics cache m newRid sid = .sent cx ↔ respResume fabrics cache m newRid sid = some cx := by
+  unfold respResume
+  cases respResumeStep fabrics cache m newRid sid <;> simp
+
+/-- whenever `try_handle_sigma1_resume` does not fall through, it has found the record with the
+received id and verified `Resume1MIC` under that record's secret; what happens then depends only on
+whether the record's fabric index is (still) in the table -/
+theorem respResumeStep_accepts (fabrics : List Fabric) (cache : List ResRec) (m : Msg) (newRid sid : Term)
+    (h : respResumeStep fabrics cache m newRid sid ≠ .fallThrough) :
+    ∃ rec iRnd iSid dest iEph, cache.find? (fun r => r.rid == rec.rid) = some rec ∧
+      m = .sigma1 iRnd iSid dest iEph
+        (some (rec.rid, Term.mic (resumeKey rec.secret iRnd rec.rid infoS1RK) nonceR1)) ∧
+      ((∃ fb cx, fabrics.find? (fun f => f.idx == rec.fabIdx) = some fb ∧
+          respResumeStep fabrics cache m newRid sid = .sent cx) ∨
+       (fabrics.find? (fun f => f.idx == rec.fabIdx) = none ∧
+          respResumeStep fabrics cache m newRid sid =
+            .aborted (.sigma2Resume newRid (Term.mic (resumeKey rec.secret iRnd newRid infoS2RK) nonceR2) sid))) := by
+  unfold respResumeStep at h ⊢
+  split at h
+  · rename_i iRnd iSid dest iEph rid mic1
+    split at h
+    · exact absurd rfl h
+    · rename_i rec hrec
+      split at h
+      · exact absurd rfl h
+      · rename_i hmic
+        simp only [ne_eq, Decidable.not_not] at hmic
+        have hrid : rec.rid = rid := by
+          have := List.find?_some hrec; simpa using this
+        refine ⟨rec, iRnd, iSid, dest, iEph, by rw [hrid]; exact hrec, by rw [hrid, hmic, hrid], ?_⟩
+        simp only [hmic, ne_eq, not_true_eq_false, ↓reduceIte]
+        cases hf : fabrics.find? (fun f => f.idx == rec.fabIdx) with
+        | none => right; exact ⟨rfl, rfl⟩
+        | some fb => left; exact ⟨fb, _, rfl, rfl⟩
+  · exact absurd rfl h
 
 /-- **resumption, keys_agree**: the responder resumes on the initiator's own Sigma1 and the
 initiator accepts the responder's own `Sigma2_Resume` ⇒ same directional keys and the same
@@ -783,25 +866,39 @@ theorem derivable_R (a b : Nat) (H : List Nat) (S : Nat → Prop) (C : Cert → 
     · exact h1.2.2
   | part _ ih => exact ih
 
+/-- what the attacker can present as an intermediate: nothing, or a certificate of `C` -/
+theorem R_optCert {S : Nat → Prop} {C : Cert → Prop} {E : List Term} {o : Option Cert}
+    (h : R S C E (optCert o)) : ∀ i ∈ o, C i := by
+  intro i hi
+  cases o with
+  | none => cases hi
+  | some c => cases hi; exact h
+
 /-- **Sigma2 cannot be forged** (`C01_full`, the initiator side of unforgeability): against the
 same Dolev-Yao attacker (sees the wire, knows the IPK, own ephemeral secrets, signs under every
 key in `S`, presents every certificate in `C`), if
-* the attacker cannot sign under the responder's operational key (`hS`), and
-* every certificate it can present that is valid for the addressed fabric and names the addressed
-  node id certifies that key (`hC`: the fabric's CA issued the node id once — shown necessary below),
+* `hcert`: no chain the attacker can PRESENT — leaf in `C` and intermediate, if any, in `C` too —
+  that is valid for the addressed fabric and names the addressed node id certifies a key the
+  attacker can sign with (the premise quantifies over presentable chains only: certificates are
+  free records, so an intermediate "signed by the root" can always be written down; what matters
+  is whether the attacker holds it.  `hcert_of_provenance` in `Props/C01Net.lean` derives `hcert`
+  from where the attacker's certificates come from; the `example` below shows that some such
+  hypothesis is necessary),
 then every Sigma2 derivable from the wire that the initiator accepts is the honest responder's own
 Sigma2 for this handshake (same random, ephemeral key, ciphertext — hence same chain, signature and
 resumption id), up to the responder session id, which Sigma2 does not authenticate (it is bound
-by the transcript hash at Sigma3, see `net_single_mutation`). -/
+by the transcript hash at Sigma3, see `net_single_mutation_full`).
+Scope: the initiator offers no resumption (`initSigma1 f [] …`) and the responder answered the
+initiator's UNTAMPERED Sigma1 (`hR`); a forged Sigma1 is the subject of `tamper_sigma1_no_session`
+and of the network theorem. -/
 theorem C01_full (t : Time) (fabrics : List Fabric) (f : Fabric) (peer ephI ephR : Nat)
     (rI sI ipk rR idR sR : Nat) (ctx : RespCtx) (c3 : InitCtx3) (S : Nat → Prop) (C : Cert → Prop)
     (m : Msg)
     (hipk : f.ipk = .atom ipk)
     (hR : respSigma1 fabrics (initSigma1 f [] peer ephI (.atom rI) (.atom sI)).s1 ephR (.atom rR)
       (.atom idR) (.atom sR) = .sent ctx)
-    (hS : ¬ S ctx.fabric.opKey)
-    (hC : ∀ c ic, C c → CaseValid t f.view c ic → nodeIdOf c.subject = some peer →
-      c.pubKey = ctx.fabric.opKey)
+    (hcert : ∀ c ic, C c → (∀ i ∈ ic, C i) → CaseValid t f.view c ic →
+      nodeIdOf c.subject = some peer → ¬ S c.pubKey)
     (hD : Derivable [ephI, ephR] S C
       [(initSigma1 f [] peer ephI (.atom rI) (.atom sI)).s1.toTerm, ctx.s2.toTerm, f.ipk] m.toTerm)
     (hA : initSigma2 t (initSigma1 f [] peer ephI (.atom rI) (.atom sI)) m = some c3) :
@@ -876,9 +973,65 @@ theorem C01_full (t : Time) (fabrics : List Fabric) (f : Fabric) (peer ephI ephR
       have := hr3.2.2.1
       rw [hsig] at this
       exact this.1
-    have : noc.pubKey = ctx.fabric.opKey := hC noc icac hCn hv hn
-    rw [this] at hSk
-    exact hS hSk
+    exact hcert noc icac hCn (R_optCert hr3.2.1) hv hn hSk
+
+/-- the earlier form of the hypotheses (the attacker cannot sign under the responder's key, and
+every presentable valid chain for the addressed node id certifies that key) implies `hcert` -/
+theorem C01_full_of_unique_key (t : Time) (fabrics : List Fabric) (f : Fabric) (peer ephI ephR : Nat)
+    (rI sI ipk rR idR sR : Nat) (ctx : RespCtx) (c3 : InitCtx3) (S : Nat → Prop) (C : Cert → Prop)
+    (m : Msg)
+    (hipk : f.ipk = .atom ipk)
+    (hR : respSigma1 fabrics (initSigma1 f [] peer ephI (.atom rI) (.atom sI)).s1 ephR (.atom rR)
+      (.atom idR) (.atom sR) = .sent ctx)
+    (hS : ¬ S ctx.fabric.opKey)
+    (hC : ∀ c ic, C c → (∀ i ∈ ic, C i) → CaseValid t f.view c ic → nodeIdOf c.subject = some peer →
+      c.pubKey = ctx.fabric.opKey)
+    (hD : Derivable [ephI, ephR] S C
+      [(initSigma1 f [] peer ephI (.atom rI) (.atom sI)).s1.toTerm, ctx.s2.toTerm, f.ipk] m.toTerm)
+    (hA : initSigma2 t (initSigma1 f [] peer ephI (.atom rI) (.atom sI)) m = some c3) :
+    ∃ sid', m = .sigma2 (.atom rR) sid' (.epk ephR)
+      (.enc (s2k ctx.secret ctx.fabric.ipk (.atom rR) (.epk ephR) ctx.s1) nonceS2
+        (tbe2 ctx.fabric.noc ctx.fabric.icac
+          (Term.sign ctx.fabric.opKey (tbs ctx.fabric.noc ctx.fabric.icac (.epk ephR) (.epk ephI)))
+          (.atom idR))) :=
+  C01_full t fabrics f peer ephI ephR rI sI ipk rR idR sR ctx c3 S C m hipk hR
+    (fun c ic hc hic hv hn hs => hS (hC c ic hc hic hv hn ▸ hs)) hD hA
+
+/-! ## Where the certificate hypothesis comes from -/
+
+/-- **`hcert` from the provenance of the attacker's certificates.**  Certificates are symbolic
+records (`sigBy` is a field), so "the attacker can present `c`" has to be constrained from outside.
+The realistic constraint: every certificate the attacker can present was either issued by an honest
+party (`honest`: the fabric's CA, its intermediates, other nodes' certificates it has seen, its OWN
+genuine NOC if it is a fabric member) or is of its own making — then its signature, if it verifies
+at all, verifies under a key the attacker owns.  If moreover the attacker does not own the root
+key, and the honest issuers certified attacker-owned keys only in non-CA certificates for node ids
+other than the addressed one, then no presentable chain that is valid for the fabric and names the
+addressed node id certifies an attacker key.  Self-issued leaves and intermediates, mis-named
+chains, certificates of other fabrics … are all inside `C` and all harmless. -/
+theorem hcert_of_provenance (t : Time) (f : FabricView) (peer : Nat) (S : Nat → Prop)
+    (C honest : Cert → Prop)
+    (hprov : ∀ c, C c → honest c ∨ ∀ k, c.sigBy = some k → S k)
+    (hroot : ¬ S f.root.pubKey)
+    (hhon : ∀ h, honest h → S h.pubKey →
+      h.bc.map Prod.fst ≠ some true ∧ nodeIdOf h.subject ≠ some peer) :
+    ∀ c ic, C c → (∀ i ∈ ic, C i) → CaseValid t f c ic → nodeIdOf c.subject = some peer →
+      ¬ S c.pubKey := by
+  intro c ic hc hic hv hn hs
+  rcases hprov c hc with hh | hself
+  · exact (hhon c hh hs).2 hn
+  · cases ic with
+    | none =>
+      have h := hv.1
+      simp [ChainValid, pathOf] at h
+      exact hroot (hself _ h.1.1.1)
+    | some i =>
+      have h := hv.1
+      simp [ChainValid, pathOf, List.zipIdx] at h
+      have hSi : S i.pubKey := hself _ h.1.1.1
+      rcases hprov i (hic i rfl) with hi | hi
+      · exact (hhon i hi hSi).1 h.2.2.2.2.1.1.2.1
+      · exact hroot (hi _ h.1.2.1.1)
 
 /-! ## Non-vacuity: a concrete honest handshake (full and resumed) -/
 
@@ -961,17 +1114,71 @@ example :
   · exact .kdf hsh (.pair (.atom _) (.pair (.atom _) (.pair (.epk _) (.hash hk)))) (.atom _)
   · exact .pair hc (.pair .none (.pair (.sign rfl (.pair hc (.pair .none (.pair (.epk _) (.epk _))))) (.atom _)))
 
-/-- **the assumptions are satisfiable**: in the concrete run, with an attacker that knows the
-responder's certificate and can sign under every key but the responder's (8), the hypotheses of
-`C01_full` hold and the theorem pins the accepted Sigma2 down -/
+/-! a realistic attacker: an insider of the fabric (it holds a genuine NOC for node 300 on its own
+key 66), who has seen every honest certificate and can present ANY certificate record of its own
+making — in particular self-issued NOCs for the addressed node id 200 and self-issued
+intermediates — but does not own the root key -/
+
+/-- the attacker's genuine NOC (node 300, key 66, issued by the fabric's root) -/
+def insiderNoc : Cert :=
+  { devNoc with subject := [.nodeId 300, .fabricId 7], skid := some 66, pubKey := 66 }
+
+def honestCerts : List Cert := [C19.exRoot, C19.exIcac, C19.exNoc, devNoc, insiderNoc]
+
+/-- signs with key 66 only -/
+def exS : Nat → Prop := (· = 66)
+
+/-- presents every honest certificate and every record whose signature verifies under its own key
+or under no key at all -/
+def exC : Cert → Prop := fun c => c ∈ honestCerts ∨ ∀ k, c.sigBy = some k → k = 66
+
+/-- a NOC the attacker makes itself: names the addressed node 200 on fabric 7, certifies its own
+key 66, signed with its own key 66 — presentable, with a self-issued intermediate too -/
+def selfNoc : Cert :=
+  { C19.exNoc with subject := [.nodeId 200, .fabricId 7], issuer := [.icaId 66], akid := some 66,
+                   skid := some 67, pubKey := 66, sigBy := some 66 }
+def selfIcac : Cert :=
+  { C19.exIcac with subject := [.icaId 66], issuer := [.icaId 66], skid := some 66, akid := some 66,
+                    pubKey := 66, sigBy := some 66 }
+/-- the intermediate that WOULD make `selfNoc` valid: signed by the root — a record one can write
+down, but not one the attacker can present -/
+def ghostIcac : Cert := { C19.exIcac with subject := [.icaId 66], skid := some 66, pubKey := 66 }
+
+example : exC insiderNoc ∧ exC selfNoc ∧ exC selfIcac ∧ ¬ exC ghostIcac := by
+  refine ⟨Or.inl (by decide), Or.inr (by intro k h; cases h; rfl), Or.inr (by intro k h; cases h; rfl), ?_⟩
+  rintro (h | h)
+  · revert h; decide
+  · exact absurd (h 0 rfl) (by decide)
+example : CaseValid C19.exT ctlFabric.view insiderNoc .none := by decide
+example : ¬ CaseValid C19.exT ctlFabric.view selfNoc (some selfIcac) := by decide
+example : CaseValid C19.exT ctlFabric.view selfNoc (some ghostIcac) := by decide
+
+/-- the certificate hypothesis holds for this attacker (by `hcert_of_provenance`) … -/
+theorem exHcert : ∀ c ic, exC c → (∀ i ∈ ic, exC i) → CaseValid C19.exT ctlFabric.view c ic →
+    nodeIdOf c.subject = some 200 → ¬ exS c.pubKey :=
+  hcert_of_provenance C19.exT ctlFabric.view 200 exS exC (· ∈ honestCerts)
+    (fun _ h => h) (by unfold exS; decide)
+    (by
+      have : ∀ h ∈ honestCerts, h.pubKey = 66 →
+          h.bc.map Prod.fst ≠ some true ∧ nodeIdOf h.subject ≠ some 200 := by decide
+      exact this)
+
+/-- … whereas the same hypothesis WITHOUT the premise "the intermediate is presentable too" is
+false for it (and for every attacker that can present a self-made leaf): the audit's
+counter-example -/
+example : ¬ ∀ c ic, exC c → CaseValid C19.exT ctlFabric.view c ic →
+    nodeIdOf c.subject = some 200 → ¬ exS c.pubKey :=
+  fun h => h selfNoc (some ghostIcac) (Or.inr (by intro k hk; cases hk; rfl)) (by decide) (by decide) rfl
+
+/-- **the assumptions are satisfiable**: in the concrete run, against the insider attacker above,
+the hypotheses of `C01_full` hold and the theorem pins the accepted Sigma2 down -/
 example : ∃ sid', exResp.s2 = .sigma2 (.atom 502) sid' (.epk 12)
     (.enc (s2k exResp.secret exResp.fabric.ipk (.atom 502) (.epk 12) exResp.s1) nonceS2
       (tbe2 exResp.fabric.noc exResp.fabric.icac
         (Term.sign exResp.fabric.opKey (tbs exResp.fabric.noc exResp.fabric.icac (.epk 12) (.epk 11)))
         (.atom 702))) :=
   C01_full C19.exT [devFabric] ctlFabric 200 11 12 501 601 77 502 702 602 exResp exInit3
-    (· ≠ 8) (· = devNoc) exResp.s2 rfl (by rfl) (by decide)
-    (by intro c ic hc _ _; subst hc; decide)
+    exS exC exResp.s2 rfl (by rfl) exHcert
     (.known (by simp)) (by
       show initSigma2 C19.exT exInit exResp.s2 = some ((initSigma2 C19.exT exInit exResp.s2).getD default)
       have h : (initSigma2 C19.exT exInit exResp.s2).isSome = true := by decide
